@@ -72,8 +72,8 @@ def main():
         "version": 1,
         "setup_cmd": "./setup.sh",
         "hooks": {
-            "guard": "uazu_stakker_verif",
-            "enable": "RUSTFLAGS=--cfg uazu_stakker_verif (set in /verif/harness-conc/.cargo/config.toml); the sequential harness needs no hooks",
+            "guard": "uazu-stakker-verif",
+            "enable": "cargo feature uazu-stakker-verif of the stakker crate, enabled by the harness crate's default feature `verif` (/verif/harness/Cargo.toml); checks build /repo through that path dependency",
             "baseline_off_cmd": "cd /repo && cargo test --workspace --no-fail-fast --offline",
             "source_commits": hooks_commits,
             "add_only": True,
